@@ -314,10 +314,9 @@ func (st *Settings) Deserialize(fr *FrameHeader) error {
 }
 
 func (st *Settings) Serialize(fr *FrameHeader) {
-	if st.ack { // ACK should be empty
-		fr.SetFlags(
-			fr.Flags().Add(FlagAck))
+	fr.SetFlags(fr.Flags().with(FlagAck, st.ack))
 
+	if st.ack { // ACK should be empty
 		fr.payload = fr.payload[:0]
 	} else {
 		st.Encode()
